@@ -9,7 +9,9 @@
 (*     differs from every order the header could legitimately have);                     *)
 (*   - only the series put last may be extended, at most MaxExtends times per history    *)
 (*     and only in "num" histories;                                                      *)
-(*   - all Puts of one history have the same kind;                                       *)
+(*   - all Puts of one history have the same kind; "twin" histories (equal values that    *)
+(*     differ in type / sign of zero) have up to MaxRaggedInt series and are rendered     *)
+(*     under TwinFormatSeq (%r, %+.3f, %s, %.5g), and are not solved;                     *)
 (*   - ragged lengths 0..MaxLen are explored for up to MaxRagged series (MaxRaggedInt    *)
 (*     when the values are ints); larger name sets (every subset of the pool) are        *)
 (*     explored with one value per series, which is also the state Solve starts from;    *)
@@ -28,7 +30,7 @@
 (* not multiply the histories.                                                           *)
 EXTENDS Table, Json
 
-CONSTANTS Mode, MaxRagged, MaxRaggedInt, MaxExtends, PoolOrder, MaxMut, MaxObs, MaxConds, UseOpts, UseBlocks, Axes
+CONSTANTS Mode, MaxRagged, MaxRaggedInt, MaxExtends, PoolOrder, MaxMut, MaxObs, MaxConds, UseOpts, UseBlocks, Axes, FirstKinds, TwinFormatSeq
 
 N_A    == << 65 >>
 N_a    == << 97 >>
@@ -55,6 +57,9 @@ MC_Names == Range(PoolOrder)
 MC_Formats == << "g5", "g12", "f", "e", "d" >>
 MC_EditFormats == << "g12", "d", "f", "g5", "e" >>
 MC_Horizon1 == {1}
+MC_KindsAll == {"int", "num", "twin"}
+MC_KindsPlain == {"int", "num"}
+MC_TwinFormats == << "r", "pf3", "s", "g5" >>
 MC_AxisK == {NmK}
 MC_Axes == {NmK, Iteration, NmT}
 MC_Horizons_edit == {0, 2}
@@ -72,16 +77,20 @@ NumExtends(ps) == Len(ps) - Cardinality({ ps[i].name : i \in 1..Len(ps) })
 
 ----------------------------------------------------------------------------
 (* Mode = "grid" *)
-RequiredRenders == SelectSeq(FormatSeq, LAMBDA f : f \notin IntOnlyFormats \/ AllInt(holder))
+(* a "twin" history is rendered under the formats that show the difference between equal values *)
+HistTwin == puts # << >> /\ puts[1].kind = "twin"
+RequiredRenders == IF HistTwin THEN TwinFormatSeq
+                   ELSE SelectSeq(FormatSeq, LAMBDA f : f \notin IntOnlyFormats \/ AllInt(holder))
 
 LastPut == puts[Len(puts)]
 PutNames ==
     IF puts = << >> THEN Names
     ELSE { n \in Names : PoolIdx(n) > PoolIdx(LastPut.name) }
          \cup (IF NumExtends(puts) < MaxExtends /\ LastPut.kind = "num" THEN {LastPut.name} ELSE {})
-PutKinds == IF axis # NmK THEN {"num"} ELSE IF puts = << >> THEN Kinds ELSE {LastPut.kind}
+GridKinds == IF axis # NmK THEN {"num"} ELSE IF puts = << >> THEN FirstKinds ELSE {LastPut.kind}
 PutLens(n, kind) ==
     IF axis # NmK THEN {1} ELSE
+    IF kind = "twin" /\ Cardinality(DOMAIN holder \cup {n}) > MaxRaggedInt THEN {} ELSE
     IF Cardinality(DOMAIN holder \cup {n}) <= (IF kind = "int" THEN MaxRaggedInt ELSE MaxRagged) THEN 0..MaxLen
     ELSE IF \A m \in DOMAIN holder : holder[m].len = 1 THEN {1} ELSE {}
 
@@ -92,9 +101,9 @@ OtherAxis == axis # NmK
 GridNext ==
     \/ /\ hist = << >> /\ \E a \in Axes \ {NmK} : Create(a)
     \/ /\ phase = "build" /\ NumRenders = 0 /\ stated = Unstated /\ conds = {}
-       /\ \E n \in PutNames : \E kind \in PutKinds : \E len \in PutLens(n, kind) : Put(n, len, kind)
+       /\ \E n \in PutNames : \E kind \in GridKinds : \E len \in PutLens(n, kind) : Put(n, len, kind)
     \/ /\ phase = "build" /\ NumRenders = 0
-       /\ axis = NmK
+       /\ axis = NmK /\ ~HistTwin
        /\ \A n \in DOMAIN holder : holder[n].kind = "num"
        /\ NumExtends(puts) = 0
        /\ \A n \in DOMAIN holder : holder[n].len = 1
@@ -112,7 +121,7 @@ GridTerminal == NumRenders > 0 /\ NumRenders = Len(RequiredRenders)
 ----------------------------------------------------------------------------
 (* Mode = "edit" *)
 Stores == OpsOf({"put", "store"})
-HistKinds == IF Stores = << >> THEN Kinds ELSE {Stores[1].kind}
+HistKinds == IF Stores = << >> THEN FirstKinds ELSE {Stores[1].kind}
 RenderFmt(j) ==
     LET f == FormatSeq[((j - 1) % Len(FormatSeq)) + 1]
     IN IF f \in IntOnlyFormats /\ ~AllInt(holder) THEN FormatSeq[1] ELSE f
